@@ -195,6 +195,15 @@ ReadGet(p) ==
     /\ Step(p, "GetLatest")
     /\ UNCHANGED <<db, conn, tx, snap, dec, seen, faults, crashed>>
 
+\* a reader's GetLatest fails (non-NotFound): the read returns an error, nothing is held afterwards
+ReadGetFail(p) ==
+    /\ ~crashed /\ pc[p] = "rget" /\ faults < MaxFaults
+    /\ (Store = "Sql1" => conn = 0)
+    /\ faults' = faults + 1
+    /\ Return(p, StorageErr)
+    /\ Step(p, "ReadGetFail")
+    /\ UNCHANGED <<db, conn, tx, snap, dec, seen, crashed>>
+
 \* ---- crash ----------------------------------------------------------------------
 Crash ==
     /\ ~crashed /\ MaxCrash > 0
@@ -208,7 +217,7 @@ ProcStep(p) ==
     \/ (~EagerInvoke /\ Invoke(p))
     \/ WriteOps(p) \/ WriteOpsFail(p) \/ GetLatest(p) \/ GetLatestFail(p)
     \/ Set(p) \/ SetFail(p) \/ Exec(p) \/ Commit(p) \/ CommitFail(p) \/ Close(p) \/ CloseFail(p)
-    \/ ReadOps(p) \/ ReadGet(p)
+    \/ ReadOps(p) \/ ReadGet(p) \/ ReadGetFail(p)
 
 Next == (\E p \in Procs : ProcStep(p)) \/ Crash
 
